@@ -1,4 +1,4 @@
-"""Reproducers of the open C20 findings on the real spydrnet Comparer (run: PYTHONPATH=/repo /venv/bin/python corpus/cmp/repro_c20.py)."""
+"""Reproducers of the C20 findings (open: 3, 3b, 6; the others are repaired in /repo and print "returns (accepted)" / AssertionError now) on the real spydrnet Comparer (run: PYTHONPATH=/repo /venv/bin/python corpus/cmp/repro_c20.py)."""
 import spydrnet as sdn, io, contextlib
 from spydrnet.compare.compare_netlists import Comparer
 def build(extra=None):
@@ -40,7 +40,7 @@ print('3b net moved between two assignments :', cmp(a, b))
 # 4 renamed element -> StopIteration
 a, b = build(), build(); b.libraries[0].definitions[0].ports[0].name = 'zz'
 print('4 port renamed on copy               :', cmp(a, b))
-# 5 identical copies that are not accepted
+# 5 identical copies that were not accepted (repaired: 2243c09, 62eff9e, 814f5eb)
 x = lambda n, lib, leaf, leaf2, top, u0, u1, c: (top.create_port(name='ab', pins=1), top.create_port(name='a*', pins=1))
 print('5 siblings ab and a* (self)          :', cmp(build(x), build(x)))
 x = lambda n, lib, leaf, leaf2, top, u0, u1, c: top.create_child(name='SDN_Assignment_7', reference=leaf)
